@@ -337,7 +337,7 @@ func blockCtx() vm.BlockContext {
 		CanTransfer:         core.CanTransfer,
 		Transfer:            core.Transfer,
 		GetHash:             func(uint64) common.Hash { return common.Hash{} },
-		CheckIfEtxEligible:  func(common.Hash, common.Location) bool { return true },
+		CheckIfEtxEligible:  func(_ common.Hash, to common.Location) bool { return !to.Equal(closedLoc) },
 		PrimaryCoinbase:     minerAddr,
 		GasLimit:            1 << 62,
 		BlockNumber:         big.NewInt(3500000),
